@@ -73,7 +73,7 @@ async fn health(addr: std::net::SocketAddr) {
 
 /// Send `bytes` on a fresh connection, end it (`fin`, `rst`) or leave it open (`hold`), report what came back.
 async fn fault(addr: std::net::SocketAddr, f: u64, kind: &str, bytes: &[u8], end: &str, detail: Value) -> Option<TcpStream> {
-    emit("fault", json!({"f": f, "kind": kind, "len": bytes.len(), "end": end, "detail": detail}));
+    emit("fault", json!({"f": f, "kind": kind, "len": bytes.len(), "end": end, "detail": detail.clone()}));
     let Ok(mut s) = httpc::connect(addr).await else {
         emit("fault_closed", json!({"f": f, "why": "connect failed"}));
         return None;
@@ -93,6 +93,21 @@ async fn fault(addr: std::net::SocketAddr, f: u64, kind: &str, bytes: &[u8], end
         _ => {
             let _ = s.shutdown().await; // FIN: nothing more will come
         }
+    }
+    if detail.get("tls").and_then(|x| x.as_bool()) == Some(true) {
+        // on a TLS port whatever comes back before the handshake completes is a TLS record
+        // (an alert), not an HTTP response: just wait for the server to be done with it
+        use tokio::io::AsyncReadExt;
+        let mut sink = vec![0u8; 4096];
+        let mut got = 0usize;
+        loop {
+            match tokio::time::timeout(Duration::from_secs(5), s.read(&mut sink)).await {
+                Ok(Ok(0)) | Ok(Err(_)) | Err(_) => break,
+                Ok(Ok(k)) => got += k,
+            }
+        }
+        emit("fault_closed", json!({"f": f, "why": format!("tls: {} bytes of TLS records returned", got)}));
+        return None;
     }
     let mut rd = httpc::Reader::new();
     let resp = rd.read_response(&mut s, false, Duration::from_secs(5)).await;
@@ -239,6 +254,70 @@ fn main() {
         }
         health(addr).await;
         let _ = tokio::time::timeout(Duration::from_secs(40), server.close()).await;
+
+        // ------------------------------------------------------------------
+        // 8. the same over TLS: stalled, truncated, garbage and plain-HTTP
+        //    "handshakes"; health goes through a real TLS client
+        // ------------------------------------------------------------------
+        let ck = rcgen::generate_simple_self_signed(vec!["localhost".to_string()]).expect("self-signed certificate");
+        let cert_pem = ck.cert.pem();
+        let key_pem = ck.key_pair.serialize_pem();
+        let mut api = ApiDescription::new();
+        api.register(ep_health).unwrap();
+        let log = slog::Logger::root(slog::Discard, slog::o!());
+        let tls_server = ServerBuilder::new(api, (), log)
+            .config(ConfigDropshot { bind_address: "127.0.0.1:0".parse().unwrap(), ..Default::default() })
+            .tls(Some(dropshot::ConfigTls::AsBytes { certs: cert_pem.into_bytes(), key: key_pem.into_bytes() }))
+            .start()
+            .expect("tls server");
+        let taddr = tls_server.local_addr();
+        let mut roots = rustls::RootCertStore::empty();
+        roots.add(ck.cert.der().clone()).expect("root");
+        let cfg = rustls::ClientConfig::builder().with_root_certificates(roots).with_no_client_auth();
+        let connector = tokio_rustls::TlsConnector::from(std::sync::Arc::new(cfg));
+        let tls_health = |connector: tokio_rustls::TlsConnector| async move {
+            let attempt = async {
+                let tcp = httpc::connect(taddr).await.map_err(|e| format!("connect: {}", e.kind()))?;
+                let name = rustls::pki_types::ServerName::try_from("localhost").unwrap();
+                let mut tls = connector.connect(name, tcp).await.map_err(|e| format!("tls: {}", e))?;
+                let req = httpc::build_request("GET", "/health", &[], None);
+                tls.write_all(&req).await.map_err(|e| format!("write: {}", e.kind()))?;
+                let mut rd = httpc::Reader::new();
+                Ok::<_, String>(rd.read_response(&mut tls, false, Duration::from_secs(10)).await)
+            };
+            match tokio::time::timeout(Duration::from_secs(10), attempt).await {
+                Ok(Ok(r)) => emit("health", json!({"ok": r.wellformed && r.status == 200, "status": r.status, "problem": r.problem, "tls": true})),
+                Ok(Err(e)) => emit("health", json!({"ok": false, "status": 0, "problem": e, "tls": true})),
+                Err(_) => emit("health", json!({"ok": false, "status": 0, "problem": "timeout", "tls": true})),
+            }
+        };
+        tls_health(connector.clone()).await;
+        let mut held = vec![];
+        let hello_prefix: &[u8] = &[0x16, 0x03, 0x01, 0x02, 0x00, 0x01, 0x00, 0x01, 0xfc, 0x03, 0x03];
+        for (i, (kind, bytes, end)) in [
+            ("slow_open", &b""[..], "hold"),
+            ("slow_open", &hello_prefix[..3], "hold"),
+            ("slow_open", hello_prefix, "hold"),
+            ("garbage", &b"\x00\x01\x02\xff\xfe garbage garbage"[..], "fin"),
+            ("garbage", &b"GET /health HTTP/1.1\r\nhost: x\r\n\r\n"[..], "fin"),
+            ("truncated", hello_prefix, "fin"),
+            ("truncated_reset", hello_prefix, "rst"),
+            ("slow_open", &b"\x16"[..], "hold"),
+        ].into_iter().enumerate() {
+            f += 1;
+            let _ = i;
+            if let Some(s) = fault(taddr, f, kind, bytes, end, json!({"tls": true})).await {
+                held.push((f, s));
+            }
+            tls_health(connector.clone()).await;
+            tls_health(connector.clone()).await;
+        }
+        for (hf, s) in held {
+            drop(s);
+            emit("fault_closed", json!({"f": hf, "why": "released"}));
+        }
+        tls_health(connector.clone()).await;
+        let _ = tokio::time::timeout(Duration::from_secs(40), tls_server.close()).await;
     });
     let lines = dropshot::verif::take_memory();
     std::fs::write(&out, lines.join("\n") + "\n").unwrap();
